@@ -85,6 +85,19 @@ func (c19) Gen(r *sim.Rand, tier string, run uint64) *sim.Scenario {
 	sc := &sim.Scenario{Cfg: map[string]int64{}}
 	ops, size := genAsmHistory(r, 40, 200, true, false)
 	sc.Cfg["gentext"] = int64(r.Intn(2))
+	if r.Chance(1, 4) && len(ops) >= 2 {
+		// a block of calls emitted through Clone and appended back: it must fit, or be refused,
+		// as a whole
+		a := r.Intn(len(ops))
+		b := a + 1 + r.Intn(len(ops)-a)
+		var out []sim.Op
+		out = append(out, ops[:a]...)
+		out = append(out, sim.Op{K: "clone"})
+		out = append(out, ops[a:b]...)
+		out = append(out, sim.Op{K: "append"})
+		out = append(out, ops[b:]...)
+		ops = out
+	}
 	if set, base := genBase(r, size+8); set {
 		ops = append([]sim.Op{{K: "setbase", N: []int64{int64(base)}}}, ops...)
 	}
@@ -145,7 +158,72 @@ func (c19) Exec(sc *sim.Scenario, env *sim.Env) *sim.Violation {
 		e := asm.NewEmitter(target, gentext)
 		m := newAsmModel(true, capacity, gentext)
 		refusals := 0
+		var orig *asm.Emitter // set while a block is being emitted into a clone
+		var mSnap *asmModel
+		var eSnap asmSnap
 		for i, op := range ops {
+			if op.K == "clone" {
+				if orig != nil {
+					continue
+				}
+				eSnap = snapEmitter(e)
+				var c *asm.Emitter
+				if p, pv := sim.RecoverLib(func() { c = e.Clone(make([]byte, total+16)) }); p || c == nil {
+					return &sim.Violation{Oracle: "clone_panic", Step: i, Msg: sim.PanicString(pv)}
+				}
+				mSnap = m.clone()
+				m.NoCap = true
+				orig, e = e, c
+				st.Probe("block_through_clone")
+				continue
+			}
+			if op.K == "append" {
+				if orig == nil {
+					continue
+				}
+				blockSize := m.Len - mSnap.Len
+				fits := mSnap.Len+blockSize <= capacity
+				p, pv := sim.RecoverLib(func() { orig.Append(e) })
+				e, orig = orig, nil
+				m.NoCap = false
+				after := snapEmitter(e)
+				st.SimOps++
+				env.ObsBool(p)
+				if v := accessorViolation(after, i, op); v != nil {
+					return v
+				}
+				if p != !fits {
+					return &sim.Violation{Oracle: "refusal_mismatch", Step: i, Msg: fmt.Sprintf("cap=%d len=%d: Append of a %d-byte block: expected refused=%v, library panicked=%v (%s)", capacity, mSnap.Len, blockSize, !fits, p, sim.PanicString(pv))}
+				}
+				if p {
+					refusals++
+					st.Fault("cap_refusal:append")
+					if d := eSnap.diff(after, false); d != "" {
+						return &sim.Violation{Oracle: "refusal_not_atomic", Step: i, Msg: fmt.Sprintf("cap=%d: a block of %d bytes was refused at Append but the emitter changed: %s", capacity, blockSize, d)}
+					}
+					m = mSnap // the block is refused as a whole
+					m.Flags = after.Flags
+					continue
+				}
+				if after.Len != m.Len || after.PC != m.Addr {
+					return &sim.Violation{Oracle: "accepted_state", Step: i, Msg: fmt.Sprintf("cap=%d after Append: Len=%d PC=%#x, model Len=%d PC=%#x", capacity, after.Len, after.PC, m.Len, m.Addr)}
+				}
+				continue
+			}
+			if orig != nil {
+				// inside the block: emitted into the roomy clone; only outcome and pc are compared
+				out := m.step(op)
+				panicked, msg := asmApply(e, op)
+				st.SimOps++
+				env.ObsBool(panicked)
+				if panicked != (out.Refused != "") {
+					return &sim.Violation{Oracle: "refusal_mismatch", Step: i, Msg: fmt.Sprintf("cap=%d op %s inside a cloned block: model refused=%q, library panicked=%v (%s)", capacity, op, out.Refused, panicked, msg)}
+				}
+				if pc := e.PC(); !panicked && pc != m.Addr {
+					return &sim.Violation{Oracle: "accepted_state", Step: i, Msg: fmt.Sprintf("cap=%d op %s inside a cloned block: PC=%#x, model %#x", capacity, op, pc, m.Addr)}
+				}
+				continue
+			}
 			before := snapEmitter(e)
 			tbefore := append([]byte{}, target...)
 			out := m.step(op)
@@ -206,6 +284,11 @@ func (c19) Exec(sc *sim.Scenario, env *sim.Env) *sim.Violation {
 				}
 			}
 		}
+		if orig != nil {
+			e, orig = orig, nil // an unfinished block is simply dropped
+			m = mSnap
+			m.NoCap = false
+		}
 		// a refused label-reference instruction must leave no trace either: Finalize sees only
 		// the references of instructions that were accepted
 		{
@@ -233,7 +316,36 @@ func (c19) Exec(sc *sim.Scenario, env *sim.Env) *sim.Violation {
 	nilE := asm.NewEmitter(nil, gentext)
 	ampleT, _ := mkTarget(total+16, sc.Seed&1 == 1)
 	ample := asm.NewEmitter(ampleT, gentext)
+	var nilOrig *asm.Emitter
 	for i, op := range ops {
+		if op.K == "clone" {
+			if nilOrig == nil {
+				var c *asm.Emitter
+				if p, pv := sim.RecoverLib(func() { c = nilE.Clone(nil) }); p || c == nil {
+					return &sim.Violation{Oracle: "clone_panic", Step: i, Msg: "Clone(nil) of a nil-target emitter: " + sim.PanicString(pv)}
+				}
+				nilOrig, nilE = nilE, c
+			}
+			continue
+		}
+		if op.K == "append" {
+			if nilOrig != nil {
+				if p, pv := sim.RecoverLib(func() { nilOrig.Append(nilE) }); p {
+					return &sim.Violation{Oracle: "twin_refusal", Step: i, Msg: "Append between nil-target emitters panicked: " + sim.PanicString(pv)}
+				}
+				nilE, nilOrig = nilOrig, nil
+				a, b := snapEmitter(nilE), snapEmitter(ample)
+				if a.PC != b.PC || a.Flags != b.Flags {
+					return &sim.Violation{Oracle: "twin_pc_flags", Step: i, Msg: fmt.Sprintf("after Append of a dry-run block: nil-target PC=%#x flags=%#x, real PC=%#x flags=%#x", a.PC, a.Flags, b.PC, b.Flags)}
+				}
+				for n, v := range a.Labels {
+					if b.Labels[n] != v {
+						return &sim.Violation{Oracle: "twin_label", Step: i, Msg: fmt.Sprintf("after Append of a dry-run block: label %s nil-target=%#x real=%#x", n, v, b.Labels[n])}
+					}
+				}
+			}
+			continue
+		}
 		p1, m1 := asmApply(nilE, op)
 		p2, m2 := asmApply(ample, op)
 		st.SimOps += 2
